@@ -115,10 +115,14 @@ class Inbound:
 
     def stopped(self):
         # Dilation is over for good (the wormhole is closing): no subchannel
-        # will ever carry anything again, so tell their protocols, exactly
-        # as if the peer had closed each of them
+        # will ever carry anything again, so tell their protocols
         for sc in list(self._open_subchannels.values()):
-            sc.remote_close()
+            try:
+                sc.wormhole_closed()
+            except Exception:
+                # an application callback that raises must not keep the
+                # wormhole from closing
+                log.err()
 
     # from our Subchannel, or rather from the Protocol above it and sent
     # through the subchannel
